@@ -247,8 +247,12 @@ pub fn run_check<C: Check>(chk: &C, args: &Args) -> i32 {
             s.active = true;
         }
         let mut out = Outcome::default();
+        let t_case = Instant::now();
         let r = catch_unwind(AssertUnwindSafe(|| chk.run(&case, &mut out)));
         slot.lock().unwrap().active = false;
+        if std::env::var("VH_TIMES").is_ok() && t_case.elapsed() > Duration::from_millis(300) {
+            eprintln!("TIME part {} idx {} {} ms {}", pi, my_idx, t_case.elapsed().as_millis(), &cj[..cj.len().min(200)]);
+        }
         let mut st = stats.lock().unwrap();
         if let Err(p) = r {
             // a panic that escaped the check's own catch_unwind around the subject is a
